@@ -167,8 +167,9 @@ func genesisCases(r *sim.Rng, count int) {
 	}
 }
 
-// historicalCases: a real chain whose validator set changes every block; LoadCommittee(h) is re-asked for every past
-// height after all later blocks, in an order that exercises the shared historical cache and its eviction.
+// historicalCases: a real chain (FSM mini-node: ApplyBlock/IndexQC/IndexBlock/Commit/fsm.New per block) whose validator set AND
+// governance caps change over time; LoadCommittee(h)/GetDelegates at h are re-asked for every past height after all later blocks,
+// twice and in scrambled order, which exercises the shared historical cache and its 64-entry eviction.
 func historicalCases(r *sim.Rng, blocks int) {
 	nv := 6
 	g := &sim.GenesisSpec{}
@@ -179,23 +180,24 @@ func historicalCases(r *sim.Rng, blocks int) {
 	for i := 0; i < nv; i++ {
 		g.Validators = append(g.Validators, sim.StdValidator(i, 1000))
 	}
-	for i := 0; i < 14; i++ {
+	for i := 0; i < 16; i++ {
 		g.Accounts = append(g.Accounts, &fsm.Account{Address: sim.BLSKey(i).Addr, Amount: 1 << 40})
 	}
-	ch, err := sim.NewChain(g, 1, nil)
+	n, err := sim.NewFNode(g.State(), nil)
 	if err != nil {
 		panic(err)
 	}
-	defer ch.Close()
-	n := ch.Nodes[0]
+	defer n.Close()
 	type snap struct {
-		h    uint64
-		scan []*fsm.Validator
+		h      uint64
+		cap    uint64
+		dcap   uint64
+		scan   []*fsm.Validator
 	}
 	var snaps []snap
 	record := func() {
 		n.Enter()
-		sm, e := n.C.FSM.TimeMachine(0)
+		sm, e := n.FSM.TimeMachine(0)
 		if e != nil {
 			panic(e)
 		}
@@ -203,8 +205,12 @@ func historicalCases(r *sim.Rng, blocks int) {
 		if e != nil {
 			panic(e)
 		}
+		vp, e := sm.GetParamsVal()
+		if e != nil {
+			panic(e)
+		}
 		sm.Discard()
-		snaps = append(snaps, snap{n.C.FSM.Height(), scan})
+		snaps = append(snaps, snap{n.FSM.Height(), vp.MaxCommitteeSize, vp.MaximumDelegatesPerCommittee, scan})
 	}
 	record()
 	staked := map[int]bool{}
@@ -212,56 +218,51 @@ func historicalCases(r *sim.Rng, blocks int) {
 		staked[i] = true
 	}
 	for b := 0; b < blocks; b++ {
-		h := n.C.FSM.Height()
+		h := n.FSM.Height()
 		var txs [][]byte
-		add := func(tx lib.TransactionI, e lib.ErrorI) {
-			if e != nil {
-				panic(e)
-			}
-			bz, e := lib.Marshal(tx)
-			if e != nil {
-				panic(e)
-			}
-			txs = append(txs, bz)
-		}
 		i := nv + r.Intn(8)
 		k := sim.BLSKey(i)
-		switch r.Intn(4) {
-		case 0: // new validator stakes (ties on purpose)
+		switch r.Intn(6) {
+		case 0: // new validator or delegate stakes (ties on purpose)
 			if !staked[i] {
-				add(fsm.NewStakeTx(k.Priv, k.Pub, crypto.NewAddress(k.Addr), "tcp://x", []uint64{1}, r.Pick(1000, 1000, 2000, 500), 1, 1, 10000, h, false, false, ""))
+				txs = append(txs, sim.TxBytes(fsm.NewStakeTx(k.Priv, k.Pub, crypto.NewAddress(k.Addr), "tcp://x", []uint64{1}, r.Pick(1000, 1000, 2000, 500), 1, 1, 10000, h, r.Chance(30), false, "")))
 				staked[i] = true
 			}
 		case 1: // edit stake up
 			j := r.Intn(nv)
 			kj := sim.BLSKey(j)
-			n.Enter()
-			v, e := n.C.FSM.GetValidator(crypto.NewAddress(kj.Addr))
+			v, e := n.FSM.GetValidator(crypto.NewAddress(kj.Addr))
 			if e == nil && v != nil && v.UnstakingHeight == 0 {
-				add(fsm.NewEditStakeTx(kj.Priv, crypto.NewAddress(kj.Addr), crypto.NewAddress(kj.Addr), "tcp://y", []uint64{1}, v.StakedAmount+r.Pick(0, 500, 1000), 1, 1, 10000, h, false, ""))
+				txs = append(txs, sim.TxBytes(fsm.NewEditStakeTx(kj.Priv, crypto.NewAddress(kj.Addr), crypto.NewAddress(kj.Addr), "tcp://y", []uint64{1}, v.StakedAmount+r.Pick(0, 500, 1000), 1, 1, 10000, h, false, "")))
 			}
 		case 2: // pause or unpause a non-genesis validator
 			if staked[i] {
-				n.Enter()
-				v, e := n.C.FSM.GetValidator(crypto.NewAddress(k.Addr))
-				if e == nil && v != nil && v.UnstakingHeight == 0 {
+				v, e := n.FSM.GetValidator(crypto.NewAddress(k.Addr))
+				if e == nil && v != nil && v.UnstakingHeight == 0 && !v.Delegate {
 					if v.MaxPausedHeight == 0 {
-						add(fsm.NewPauseTx(k.Priv, crypto.NewAddress(k.Addr), 1, 1, 10000, h, ""))
+						txs = append(txs, sim.TxBytes(fsm.NewPauseTx(k.Priv, crypto.NewAddress(k.Addr), 1, 1, 10000, h, "")))
 					} else {
-						add(fsm.NewUnpauseTx(k.Priv, crypto.NewAddress(k.Addr), 1, 1, 10000, h, ""))
+						txs = append(txs, sim.TxBytes(fsm.NewUnpauseTx(k.Priv, crypto.NewAddress(k.Addr), 1, 1, 10000, h, "")))
 					}
 				}
 			}
 		case 3: // unstake a non-genesis validator
 			if staked[i] {
-				add(fsm.NewUnstakeTx(k.Priv, crypto.NewAddress(k.Addr), 1, 1, 10000, h, ""))
+				txs = append(txs, sim.TxBytes(fsm.NewUnstakeTx(k.Priv, crypto.NewAddress(k.Addr), 1, 1, 10000, h, "")))
 				staked[i] = false
 			}
+		case 4: // governance: change the committee cap
+			txs = append(txs, sim.TxBytes(fsm.NewChangeParamTxUint64(sim.BLSKey(0).Priv, fsm.ParamSpaceVal, fsm.ParamMaxCommitteeSize, r.Pick(2, 3, 4, 5, 100), h, h+5, 1, 1, 10000, h, "")))
+		case 5: // governance: change the delegate cap (0 = unlimited)
+			txs = append(txs, sim.TxBytes(fsm.NewChangeParamTxUint64(sim.BLSKey(0).Priv, fsm.ParamSpaceVal, fsm.ParamMaximumDelegatesPerCommittee, r.Pick(0, 1, 2, 3), h, h+5, 1, 1, 10000, h, "")))
 		}
-		if _, err := ch.Step(0, txs); err != nil {
-			fmt.Fprintln(os.Stderr, "c13: chain step failed:", err)
+		out := n.Apply(&sim.BlockSpec{Txs: txs})
+		if out.Err != nil {
+			fmt.Fprintln(os.Stderr, "c13: chain step failed:", out.Err)
 			break
 		}
+		st.ByKind["hist-txs-applied"] += len(out.Results.Results)
+		st.ByKind["hist-txs-failed"] += len(out.Results.Failed)
 		record()
 	}
 	if len(snaps) > 64 {
@@ -277,11 +278,26 @@ func historicalCases(r *sim.Rng, blocks int) {
 		order[i], order[j] = order[j], order[i]
 	}
 	n.Enter()
-	for _, i := range order {
+	for qi, i := range order {
 		s := snaps[i]
-		vs, e := n.C.FSM.LoadCommittee(1, s.h)
-		emit("LoadCommittee-historical", 4, 1, false, s.scan, vs, e)
+		if qi%7 == 0 {
+			// a node answers live and historical questions interleaved: the live FSM's own caches are warm
+			last := snaps[len(snaps)-1]
+			vs, e := n.FSM.GetCommitteeMembers(1)
+			emit("GetCommitteeMembers-live-interleaved", last.cap, 1, false, last.scan, vs, e)
+		}
+		vs, e := n.FSM.LoadCommittee(1, s.h)
+		emit("LoadCommittee-historical", s.cap, 1, false, s.scan, vs, e)
 		st.Historical++
+		if r.Chance(40) {
+			sm, e2 := n.FSM.TimeMachine(s.h)
+			if e2 == nil {
+				vs, e = sm.GetDelegates(1)
+				emit("GetDelegates-historical", s.dcap, 1, true, s.scan, vs, e)
+				sm.Discard()
+				st.Historical++
+			}
+		}
 	}
 }
 
